@@ -559,6 +559,32 @@ theorem C17_register_is_source (reg : List (Nat × List Offer)) (o : Offer) (os 
     | cons o os ih => intro r; simp [List.foldlM_cons, register_eq, ih]
   exact fold os []
 
+open TraitsVerif.Generated.AdaptProg in
+/-- The registration wrappers and the bucket key are not interpreted; what the model assumes of
+them is pinned to their statement texts (any edit breaks this obligation):
+`register_factory(f, A, B)` is `register_offer` of a new `AdaptationOffer(factory=f, from_protocol=A,
+to_protocol=B)` (the model's `Offer` with `frm = A`, `to = B`, a fresh `id`);
+`register_provides(A, B)` is `register_factory(no_adapter_necessary, A, B)` with
+`no_adapter_necessary(x) = x` (an identity factory: kind `p` of the harness);
+`from_protocol_name` — the model's `Offer.key` — is the string itself for a lazily named
+protocol and `module + "." + __name__` for a class: NOT `__qualname__`, not identity (F16). -/
+theorem C17_register_wrappers_source :
+    registerFactorySource =
+      ["def register_factory(self, factory, from_protocol, to_protocol)",
+       "from traits.adaptation.adaptation_offer import AdaptationOffer",
+       "self.register_offer(AdaptationOffer(factory=factory, from_protocol=from_protocol, to_protocol=to_protocol))"] ∧
+    registerProvidesSource =
+      ["def register_provides(self, provider_protocol, protocol)",
+       "self.register_factory(no_adapter_necessary, provider_protocol, protocol)"] ∧
+    noAdapterNecessarySource = ["def no_adapter_necessary(adaptee)", "return adaptee"] ∧
+    offerNameSource =
+      ["def _get_from_protocol_name(self)",
+       "return self._get_type_name(self._from_protocol)",
+       "def _get_type_name(self, type_or_type_name)",
+       "if isinstance(type_or_type_name, str): type_name = type_or_type_name else: type_name = '{module}.{name}'.format(module=type_or_type_name.__module__, name=type_or_type_name.__name__)",
+       "return type_name"] :=
+  ⟨rfl, rfl, rfl, rfl⟩
+
 open TraitsVerif.Lemmas.AdaptSource in
 /-- What `register_offer` builds has no empty bucket (`offers[0]` in
 `_get_applicable_offers` never raises). -/
